@@ -16,7 +16,7 @@ def refs_case(draw):
     nd = draw(st.integers(1, 5))
     descs = pool[:nd]
     nref = draw(st.integers(1, 8))
-    rank_mode = draw(st.sampled_from(['any', 'any', 'duplicate-row', 'missing-descriptor']))
+    rank_mode = draw(st.sampled_from(['any', 'any', 'duplicate-row', 'missing-descriptor', 'late-descriptor']))
     comps = []
     for i in range(nref):
         comp = {d: draw(st.integers(0, 6)) for d in descs}
@@ -25,6 +25,14 @@ def refs_case(draw):
         if all(v == 0 for v in comp.values()):
             comp[descs[0]] = 1
         comps.append({d: v for d, v in comp.items() if v or draw(st.booleans())})
+        if rank_mode == 'late-descriptor' and nd >= 2 and nref >= 2:
+            # the last descriptor is first mentioned by the last reference (it arrives through the history)
+            if i < nref - 1:
+                comps[-1].pop(descs[-1], None)
+                if not any(comps[-1].values()):
+                    comps[-1][descs[0]] = 1
+            else:
+                comps[-1][descs[-1]] = max(1, comp[descs[-1]])
     if rank_mode == 'duplicate-row' and nref >= 2:
         comps[-1] = dict(comps[0])
     T0 = draw(st.sampled_from([298.15, 298.0, 300.0, 500.0, 273.15, 1000.0]))
@@ -48,6 +56,8 @@ def refs_case(draw):
     for _ in range(draw(st.integers(0, 4))):
         hist.append({'op': draw(st.sampled_from(['append', 'extend', 'pop', 'remove', 'refit'])),
                      'j': draw(st.integers(0, 7))})
+    if rank_mode == 'late-descriptor':
+        hist.append({'op': draw(st.sampled_from(['extend', 'extend', 'refit'])), 'j': 0})
     return {'descriptor': 'groups' if use_groups else 'elements', 'descs': descs, 'refs': refs, 'hidden': hidden,
             'noise': noise, 'noise_v': noise_v, 'target': tmodel, 'tcomp': tcomp, 'tcomp2': tcomp2,
             'T': [draw(st.floats(100, 3000)) for _ in range(3)], 'history': hist,
@@ -174,7 +184,7 @@ def check_refs(case, ctx):
                   atol=1e-7 * nA * (np.linalg.norm(resid) + scale * 1e-3) + 1e-8 * scale * nA)
         if full and case['noise'] == 'consistent':
             # offsets themselves are then determined: equal to the hidden ones
-            ctx.close('C10.refs/offsets', [obj.offset[descs[j]] for j in present], hidden[present], rtol=1e-7,
+            ctx.close('C10.refs/offsets', [obj.offset.get(descs[j], np.nan) for j in present], hidden[present], rtol=1e-7,
                       atol=1e-7 * scale)
     # ---- composition-linear, T-independent, H and G only ---------------------------
     off = {d: obj.offset.get(d) for d in descs}
